@@ -90,3 +90,65 @@ Definition st_write (t : stream_transport) (line : str) (f : wfault) : read_resu
                 | None => (RReadError None, t)   (* lone surrogates: UnicodeEncodeError, outside the property *)
                 end
        end.
+
+(* ---- one StreamTransport object over its whole life ----
+   connect (which may fail), disconnect (whose close may fail), the peer feeding data or
+   ending the stream, reads and writes, in any order.  As in the code, disconnect closes
+   the writer it has (every time it is called) and keeps the stream objects; a new
+   successful connect replaces them; a failed connect leaves whatever was there. *)
+Record tsession := {
+  ts_streams : bool;          (* reader / writer are set *)
+  ts_reader : reader;
+  ts_out : bytes;             (* bytes put on the current connection *)
+  ts_closes : nat             (* writer.close() calls so far *)
+}.
+
+Definition ts_init : tsession :=
+  {| ts_streams := false; ts_reader := {| r_buf := []; r_eof := false |}; ts_out := []; ts_closes := 0 |}.
+
+Inductive top :=
+| TConnect (ok : bool)              (* _open_connection returns streams / raises OSError *)
+| TDisconnect (close_fails : bool)  (* close() / wait_closed() raises OSError or not *)
+| TFeed (chunk : bytes) | TEof      (* the peer *)
+| TRead (read_fails : bool)         (* readuntil raises OSError (connection reset) or not *)
+| TWrite (line : str) (f : wfault).
+
+Inductive tout :=
+| TDone
+| TConnectError                     (* TransportError: failed to connect *)
+| TPending                          (* the read waits for more data *)
+| TRes (r : read_result).
+
+Definition tstep (limit : nat) (s : tsession) (o : top) : tsession * tout :=
+  match o with
+  | TConnect true =>
+      ({| ts_streams := true; ts_reader := {| r_buf := []; r_eof := false |}; ts_out := []; ts_closes := ts_closes s |}, TDone)
+  | TConnect false => (s, TConnectError)
+  | TDisconnect _ =>
+      if ts_streams s
+      then ({| ts_streams := true; ts_reader := ts_reader s; ts_out := ts_out s; ts_closes := S (ts_closes s) |}, TDone)
+      else (s, TDone)
+  | TFeed c =>
+      ({| ts_streams := ts_streams s; ts_reader := {| r_buf := r_buf (ts_reader s) ++ c; r_eof := r_eof (ts_reader s) |};
+          ts_out := ts_out s; ts_closes := ts_closes s |}, TDone)
+  | TEof =>
+      ({| ts_streams := ts_streams s; ts_reader := {| r_buf := r_buf (ts_reader s); r_eof := true |};
+          ts_out := ts_out s; ts_closes := ts_closes s |}, TDone)
+  | TRead fails =>
+      if negb (ts_streams s) then (s, TRes RNotConnected)
+      else if fails then (s, TRes RFailed)
+      else match readuntil limit (ts_reader s) with
+           | Some (x, r') =>
+               ({| ts_streams := true; ts_reader := r'; ts_out := ts_out s; ts_closes := ts_closes s |}, TRes x)
+           | None => (s, TPending)
+           end
+  | TWrite line f =>
+      let '(x, t) := st_write {| st_connected := ts_streams s; st_out := ts_out s |} line f in
+      ({| ts_streams := ts_streams s; ts_reader := ts_reader s; ts_out := st_out t; ts_closes := ts_closes s |}, TRes x)
+  end.
+
+Fixpoint trun (limit : nat) (s : tsession) (ops : list top) : tsession * list tout :=
+  match ops with
+  | [] => (s, [])
+  | o :: r => let '(s1, x) := tstep limit s o in let '(s2, xs) := trun limit s1 r in (s2, x :: xs)
+  end.
